@@ -241,6 +241,8 @@ func runC08(rng *rand.Rand, ncases int, emit emitter) error {
 		{name: "close-mid", ep: "e", hdr: map[string]string{"X-Behave": "close-mid"}},
 		{name: "slow", ep: "e", hdr: map[string]string{"X-Behave": "slow"}},
 		{name: "slow-upgrade", ep: "e", hdr: map[string]string{"X-Behave": "slow", "Upgrade": "websocket", "Connection": "Upgrade"}, upgrade: true},
+		// any other protocol upgrade is an ordinary request as far as the timeout goes
+		{name: "slow-other-upgrade", ep: "e", hdr: map[string]string{"X-Behave": "slow", "Upgrade": "h2c", "Connection": "Upgrade"}},
 	}
 	for _, route := range []string{"local", "forwarded"} {
 		for _, f := range fcs {
